@@ -38,10 +38,14 @@ Spreads == <<"Pad", "Repeat", "Reflect">>
 LinGeo == << <<<<0, 0>>, <<4, 0>>>>, <<<<1, 1>>, <<1, 5>>>>, <<<<6, 2>>, <<2, 2>>>>, <<<<0, 0>>, <<8, 8>>>>,
              <<<<1, 0>>, <<4, 4>>>>, <<<<2, 5>>, <<5, 1>>>>, <<<<0, 3>>, <<16, 3>>>> >>
 RadGeo == << <<<<3, 3>>, 4>>, <<<<0, 0>>, 8>>, <<<<2, 4>>, 2>>, <<<<7, 1>>, 16>> >>
+\* sweep: centre, start angle, end angle (degrees); two-circle: c1, r1, c2, r2 (first circle inside the second)
+SweepGeo == << <<<<4, 4>>, 0, 360>>, <<<<3, 5>>, 90, 270>>, <<<<0, 0>>, 0, 90>>, <<<<4, 3>>, 300, 60>>, <<<<9, 9>>, 180, 200>> >>
+TwoGeo == << <<<<4, 4>>, 1, <<4, 4>>, 6>>, <<<<3, 4>>, 1, <<4, 4>>, 5>>, <<<<4, 2>>, 2, <<4, 5>>, 8>>, <<<<5, 5>>, 0, <<4, 4>>, 3>> >>
 Init == /\ a1 \in 1..Len(Affs)
         /\ a2 \in (IF KIND = "image" THEN 1..NInv ELSE 1..Len(Spreads))
         /\ a3 \in (IF KIND = "image" THEN 1..Len(Imgs) ELSE 1..Len(StopLists))
-        /\ a4 \in (IF KIND = "image" THEN 0..3 ELSE IF KIND = "linear" THEN 1..Len(LinGeo) ELSE 1..Len(RadGeo))
+        /\ a4 \in (CASE KIND = "image" -> 0..3 [] KIND = "linear" -> 1..Len(LinGeo) [] KIND = "radial" -> 1..Len(RadGeo)
+                       [] KIND = "sweep" -> 1..Len(SweepGeo) [] KIND = "two_circle" -> 1..Len(TwoGeo))
         /\ a5 \in 1..Len(Alphas)
         /\ a6 \in (IF KIND = "image" THEN 0..2 ELSE {0})
 Next == FALSE /\ UNCHANGED vars
@@ -65,6 +69,12 @@ GradScen ==
                ctm |-> Affs[a1], alpha |-> Alphas[a5], via |-> "fill"]
   IN IF KIND = "linear"
      THEN base @@ [src |-> [kind |-> "linear", stops |-> StopLists[a3], start |-> LinGeo[a4][1], end |-> LinGeo[a4][2], spread |-> Spreads[a2]]]
-     ELSE base @@ [src |-> [kind |-> "radial", stops |-> StopLists[a3], center |-> RadGeo[a4][1], radius |-> RadGeo[a4][2], spread |-> Spreads[a2]]]
+     ELSE IF KIND = "radial"
+     THEN base @@ [src |-> [kind |-> "radial", stops |-> StopLists[a3], center |-> RadGeo[a4][1], radius |-> RadGeo[a4][2], spread |-> Spreads[a2]]]
+     ELSE IF KIND = "sweep"
+     THEN base @@ [src |-> [kind |-> "sweep", stops |-> StopLists[a3], center |-> SweepGeo[a4][1], start_angle |-> SweepGeo[a4][2],
+                            end_angle |-> SweepGeo[a4][3], spread |-> Spreads[a2]]]
+     ELSE base @@ [src |-> [kind |-> "two_circle", stops |-> StopLists[a3], c1 |-> TwoGeo[a4][1], r1 |-> TwoGeo[a4][2],
+                            c2 |-> TwoGeo[a4][3], r2 |-> TwoGeo[a4][4], spread |-> Spreads[a2]]]
 Emit == (Hh % SUB = 0 /\ (KIND # "image" \/ a6 = 0 \/ a1 \in {1, 2, 11})) => PrintT(ToJson(IF KIND = "image" THEN ImageScen ELSE GradScen))
 =============================================================================
